@@ -13,7 +13,7 @@ RULE = ("cases = all pairs/triples of the lattice configurations TLC enumerates 
         "(point-point incl. one at infinity, point-line/plane, point-3D line, point-segment with clamping, parallel plane-plane "
         "and plane-line, planar angles of three points and of two lines, 3D angles of three points and two planes); "
         "non-trivial = coincident / incident / one-at-infinity / proportional-vectors / clamped / right or zero angle")
-INVS = ["DistLaws", "PointHyperLaws", "SegLaws", "AngleLaws", "DistInvariant"]
+INVS = ["DistLaws", "PointHyperLaws", "SegLaws", "AngleLaws", "AngleDirectionLaws", "DistInvariant"]
 
 
 def d2_ok(obs, d2):
@@ -163,6 +163,16 @@ def replay(recs):
         elif t == "angl2":
             case = {"l": r["l"], "m": r["m"]}
             check("angle(line,line)/2D", st, case, {"[cos:sin]": r["cs"]}, lambda: g.angle(hyper(r["l"]), hyper(r["m"])), lambda v: cls_ok(v, r["cs"]))
+        elif t == "angld2":
+            case = {"l": r["l"], "direction": r["d"]}
+            rev = [r["cs"][0], -r["cs"][1]]
+            check("angle(line,direction)/2D", st, case, {"[cos:sin]": r["cs"]}, lambda: g.angle(hyper(r["l"]), P(r["d"])), lambda v: cls_ok(v, r["cs"]))
+            check("angle(direction,line)/2D", st, case, {"[cos:sin]": rev}, lambda: g.angle(P(r["d"]), hyper(r["l"])), lambda v: cls_ok(v, rev))
+            check("angle(direction,line)/2D/scaled-representatives", st, case, {"[cos:sin]": rev},
+                  lambda: g.angle(g.Point(np.array(r["d"]) * -2), g.Line(np.array(r["l"]) * 3)), lambda v: cls_ok(v, rev))
+            lc, dc = g.LineCollection(np.array([r["l"], r["l"]])), g.PointCollection(np.array([r["d"], r["d"]]))
+            check("angle(DirectionCollection,LineCollection)/2D", st, case, {"[cos:sin]": rev}, lambda: np.asarray(g.angle(dc, lc))[1], lambda v: cls_ok(v, rev))
+            check("angle(LineCollection,direction)/2D", st, case, {"[cos:sin]": r["cs"]}, lambda: np.asarray(g.angle(lc, P(r["d"])))[0], lambda v: cls_ok(v, r["cs"]))
         elif t == "ang3":
             case = {"a": r["a"], "b": r["b"], "c": r["c"]}
             check("angle(point,point,point)/3D", st, case, {"cos^2": r["cos2"]}, lambda: g.angle(P(r["a"]), P(r["b"]), P(r["c"])), lambda v: cos2_ok(v, r["cos2"]))
@@ -268,7 +278,7 @@ def _work(job):
 
 
 TIER = {"quick": dict(stride=3), "thorough": dict(stride=1)}
-TASKS = ["ppoly2", "ppoly3", "ppolyh", "pp2", "pp3", "ph2", "ph3", "pl3", "pseg2", "pseg3", "par3", "ang2", "angl2", "ang3", "angp3"]
+TASKS = ["ppoly2", "ppoly3", "ppolyh", "pp2", "pp3", "ph2", "ph3", "pl3", "pseg2", "pseg3", "par3", "ang2", "angl2", "angld2", "ang3", "angp3"]
 
 
 def run(ctx: Ctx):
@@ -282,7 +292,7 @@ def run(ctx: Ctx):
         strata[(x["r"]["t"], x["s"])] = strata.get((x["r"]["t"], x["s"]), 0) + 1
     for need in [("pp", "coincident"), ("pp", "one-at-infinity"), ("ph", "proportional-vectors"), ("ph", "incident"),
                  ("pseg", "clamped"), ("pseg", "foot-inside"), ("parplane", "parallel"), ("parline", "parallel"),
-                 ("ang2", "right-angle"), ("angl2", "general"), ("ang3", "general"), ("angp3", "general"), ("pl3", "general"),
+                 ("ang2", "right-angle"), ("angl2", "general"), ("angld2", "general"), ("angld2", "right-angle"), ("angld2", "zero-angle"), ("ang3", "general"), ("angp3", "general"), ("pl3", "general"),
                  ("ppoly", "incident"), ("ppoly", "foot-inside"), ("ppoly", "nearest-edge"), ("ppolyh", "general")]:
         if not strata.get(need):
             raise MachineryError(f"stratum {need} never visited (vacuous)")
